@@ -652,6 +652,11 @@ def run(ctx):
     phase["driver_build"] = round(time.time() - t, 1)
     t = time.time()
     hbin, hlog = C.build_harness("h_c20")
+    for _ in range(4):
+        # another property's crate being created in the shared workspace breaks `cargo build` for a moment
+        if hbin is None and "failed to load manifest for workspace member" in hlog and "crates/c20" not in hlog:
+            time.sleep(15)
+            hbin, hlog = C.build_harness("h_c20")
     phase["harness_build"] = round(time.time() - t, 1)
     if hbin is None:
         ctx.finding("corr:build", dict(kind="correspondence", log=hlog[-3000:]),
@@ -723,7 +728,7 @@ def run(ctx):
                     "non-trivial = distinct request whose text has >= 1 multi-byte character or >= 2 line-ending styles",
                histogram=stats["hist"], samples=stats["samples"] or [dict(note="no sample")],
                disagreements=stats["disagreements"], oracle_failures=stats["oracle_failures"],
-               lsp=lsp, phase_wall_s=phase)
+               lsp=lsp, phase_wall_s=phase, leanchecker_rc=po.get("leanchecker_rc"))
     ctx.write_evidence("proof", cov, assumptions=[
         "texts are shorter than 2^32 bytes: the model computes in Nat, the Rust code in u32/usize (casts are "
         "identities and additions do not overflow below that size)",
